@@ -143,6 +143,11 @@ type gen struct {
 	fundTxs  []interfaces.Transaction
 	kinds    map[string]int
 	rej      map[string]int
+	// plan: scenario directives mixed into the random stream (council dissolved by
+	// impeachment while proposals are pending; members impeached while inactive)
+	impeachAt   uint32
+	impeachN    int
+	proposalsAt uint32
 	scripted bool // register everybody at once and vote broadly (elections mostly succeed)
 	rejected int
 }
@@ -195,6 +200,39 @@ func (g *gen) blockTxs() ([]interfaces.Transaction, []string) {
 		return true
 	}
 	inVoting := cm.IsInVotingPeriod(h)
+	if g.impeachAt != 0 && h >= g.impeachAt && g.impeachN > 0 {
+		ms := cm.GetCurrentMembers()
+		sort.Slice(ms, func(a, b int) bool { return ms[a].Info.DID.Compare(ms[b].Info.DID) < 0 })
+		k := rng.Range(1, 3) // how many members are impeached in this block
+		for j := 0; j < nVoters && k > 0 && g.impeachN > 0; j++ {
+			var target *state.CRMember
+			for _, m := range ms {
+				if (m.MemberState == state.MemberElected || m.MemberState == state.MemberInactive || m.MemberState == state.MemberIllegal) &&
+					m.ImpeachmentVotes < 1000000000000000 {
+					target = m
+					break
+				}
+			}
+			if target == nil {
+				break
+			}
+			target.ImpeachmentVotes += 0 // (read only; the vote below is what counts)
+			tx := crkit.VoteOutputTx(nn(), common.Fixed64(200*ela), []outputpayload.VoteContent{{VoteType: outputpayload.CRCImpeachment,
+				CandidateVotes: []outputpayload.CandidateVotes{{Candidate: target.Info.CID.Bytes(), Votes: 1000000000000000}}}}, nil, nil)
+			usedVoter[j] = true
+			add(fmt.Sprintf("impeach v%d m-state%d", j, target.MemberState), tx, false, nil)
+			// do not pick the same member again in this block
+			ms2 := ms[:0:0]
+			for _, m := range ms {
+				if m != target {
+					ms2 = append(ms2, m)
+				}
+			}
+			ms = ms2
+			k--
+			g.impeachN--
+		}
+	}
 	n := rng.Intn(4)
 	firstTerm := h < 20
 	if h <= 12 || (h >= 16 && h <= 19) {
@@ -230,6 +268,9 @@ func (g *gen) blockTxs() ([]interfaces.Transaction, []string) {
 		}
 		if g.scripted && h == 10 {
 			x = 0
+		}
+		if g.proposalsAt != 0 && (h == g.proposalsAt || h == g.proposalsAt+1) && rng.Chance(60) {
+			x = 50 // proposal
 		}
 		if g.scripted && h >= 16 && h <= 19 && rng.Chance(70) {
 			x = 40
@@ -469,7 +510,7 @@ func (g *gen) blockTxs() ([]interfaces.Transaction, []string) {
 			}
 		default: // node claim
 			ms := cm.GetCurrentMembers()
-			if len(ms) == 0 || usedProp["claim"] {
+			if len(ms) == 0 || usedProp["claim"] || (g.impeachAt >= 38 && rng.Chance(80)) {
 				continue
 			}
 			sort.Slice(ms, func(a, b int) bool { return ms[a].Info.DID.Compare(ms[b].Info.DID) < 0 })
@@ -489,6 +530,17 @@ func generate(rng *lib.Rng, v variant, nblocks int) (*world, *gen) {
 	g := &gen{w: w, rng: rng, h: startH - 1, regTx: map[int]interfaces.Transaction{}, voteTx: map[int]interfaces.Transaction{}, kinds: map[string]int{}, rej: map[string]int{}}
 	g.e = w.newEnv()
 	g.scripted = rng.Chance(75)
+	switch rng.Intn(3) {
+	case 0: // council dissolved early, proposals still Registered / CRAgreed
+		g.scripted, g.proposalsAt = true, 21
+		g.impeachAt, g.impeachN = uint32(rng.Range(23, 28)), rng.Range(2, 3)
+	case 1: // members impeached after they went inactive (no node claimed)
+		g.scripted, g.proposalsAt = true, 34
+		g.impeachAt, g.impeachN = uint32(rng.Range(38, 41)), rng.Range(1, 3)
+		if nblocks < 34 {
+			nblocks = 34 + rng.Intn(7)
+		}
+	}
 	for i := 0; i < nblocks; i++ {
 		txs, ds := g.blockTxs()
 		if blockchain.CheckDuplicateTx(crkit.Block(g.h+1, txs)) != nil {
@@ -584,7 +636,7 @@ func main() {
 	sh := &lib.Shards{Dir: run.Out, Imports: "From ELA Require Import model.C22_CrState corr.C22_corr.", CaseType: "C22_corr.case",
 		Mismatch: "C22_corr.mismatches", Scope: "Z", PerShard: 40}
 	variants := []variant{{false, false}, {true, false}, {true, true}, {false, true}}
-	nh := run.N(24, 600)
+	nh := run.N(40, 800)
 	id := 0
 	for i := 0; i < nh; i++ {
 		v := variants[i%len(variants)]
